@@ -151,6 +151,7 @@ def parseDOp : List String → Option HKind
   | ["iter", p, n, d, stop] => do pure (.data (.iter (← unhex p) (← n.toNat?) (← parseDir d) (← stop.toNat?)))
   | ["iterk", p, n, d, stop] => do pure (.data (.iterk (← unhex p) (← n.toNat?) (← parseDir d) (← stop.toNat?)))
   | ["close"] => some .close
+  | ["flag"] => some (.data .nop)   -- WithRealm / WithExtendedRealm / Batched / Flush: only the closed flag is loaded
   | _ => none
 
 def parseEntry (s : String) : Option Entry :=
@@ -179,6 +180,7 @@ def stepLine (s : List HOp) (toks : List String) : List HOp × String :=
     match decideHist s.reverse with
     | .accept => ([], "accept")
     | .reject why => ([], "reject " ++ why)
+  | "x" :: _ => (s, "ok")   -- annotation: what the harness scheduled (the replay of a hang / crash finding)
   | tag :: i :: r :: rest =>
     -- `hf` marks a mutation that went through a flushkv wrapper and answered `closed` (harness-side classification
     -- only): for the contract it is an operation like any other
